@@ -25,7 +25,7 @@ RULE = ('sorted fragment sequences (NLA / CHIC / plain Fragment; 1-4 cells; shor
 ASSUMPTIONS = ['precondition of the property: coordinate sorted input and every fragment span + read length shorter than cache_size/2',
                'schedules are the deterministic ejection interval of a single-threaded generator']
 MIN_NONTRIVIAL = {'quick': 1500, 'thorough': 60000}
-REQUIRED_MONITORS = ['event:arrive', 'event:emit', 'emit:before_end_of_input', 'schedule:runs', 'path:alignmentfile', 'oracle:truth_compared',
+REQUIRED_MONITORS = ['lib:records_without_cigar_as_fragments_of_length_zero', 'event:arrive', 'event:emit', 'emit:before_end_of_input', 'schedule:runs', 'path:alignmentfile', 'oracle:truth_compared',
                      'eject:rounds_with_ejection', 'eject:rounds_nonprefix', 'eject:rounds_noncontiguous', 'history:restarted_passes', 'config:max_associated_fragments', 'lib:cross_contig_twins', 'lib:molecule_end_grows_after_creation', 'lib:plain_fragments_on_coordinate_0', 'config:cache_size_left_at_its_default', 'lib:plain_copies_sharing_only_start_or_only_end']
 EXHAUSTIVE = {'quick': True, 'thorough': True}
 SHARD_TIMEOUT = {'quick': 900, 'thorough': 7200}
@@ -49,6 +49,7 @@ def build_plain_single_end(r, case):
     ref = gen.get('chr1')
     recs, truths = [], {}
     rid = 1
+    rz = rng(case['seed'], 'C07', 'zero_length', case['i'])
     n_clusters = r.randint(2, 5)
     origin = r.randrange(100, ln - 8 * h - 100)
     for _ in range(n_clusters):
@@ -101,6 +102,16 @@ def build_plain_single_end(r, case):
                          'seq': seq, 'qual': [30] * (b - a), 'tags': {}, 'next_tid': -1, 'next_pos': -1})
             truths[rid] = {'id': rid, 'key': ('single', rid), 'span': (a, b), 'valid': True}
             rid += 1
+            if case['i'] % 8 == 7 and rz.random() < 0.4:
+                # placed records without CIGAR (an aligner wrote '*'): fragments of length zero, start = end. One or two identical ones of the
+                # same cell, strand and UMI, lying on the end coordinate or the start coordinate of the read just made, or one base next to it
+                z = rz.choice([b, b, b, a, b - 1, b + 1])
+                for _ in range(rz.randint(1, 2)):
+                    recs.append({'name': F.qname(rid, case['i'] + 1, cell, umi), 'flag': 16 if reverse else 0, 'tid': 0, 'pos': z, 'mapq': 60, 'cigar': None,
+                                 'seq': 'ACGTACGTAC', 'qual': [30] * 10, 'tags': {}, 'next_tid': -1, 'next_pos': -1})
+                    truths[rid] = {'id': rid, 'key': ('single', rid), 'span': (z, z), 'valid': True}
+                    ZERO_LEN[0] += 1
+                    rid += 1
     return 'plain', cache, gen, recs, truths
 
 
@@ -155,6 +166,7 @@ def build_plain_exact(r, case):
 
 
 AT_ZERO = [0]
+ZERO_LEN = [0]
 SHAPED = [0]
 TWINS = [0]
 
@@ -256,11 +268,13 @@ def run_case(case):
     TWINS[0] = 0
     GROWN[0] = 0
     AT_ZERO[0] = 0
+    ZERO_LEN[0] = 0
     SHAPED[0] = 0
     method, cache, gen, recs, truths = build_input(r, case)
     acc.count('lib:cross_contig_twins', TWINS[0])
     acc.count('lib:molecule_end_grows_after_creation', GROWN[0])
     acc.count('lib:plain_fragments_on_coordinate_0', AT_ZERO[0])
+    acc.count('lib:records_without_cigar_as_fragments_of_length_zero', ZERO_LEN[0])
     acc.count('lib:plain_copies_sharing_only_start_or_only_end', SHAPED[0])
     if len(truths) < 2:
         return acc
